@@ -69,9 +69,12 @@ def _history(job):
         viol.append({'key': key, 'msg': msg, 'witness': {'config': cfg, 'symbols': syms, 'history': list(hist)}})
         raise Stop()
 
+    peak = [float(bal)]
+
     def compare(tag):
         c('state_comparisons')
-        if not models.close_enough(exch.wallet_balance, mdl.wallet):
+        peak[0] = max(peak[0], abs(float(exch.wallet_balance)), abs(float(mdl.wallet)))
+        if abs(float(exch.wallet_balance) - float(mdl.wallet)) > 1e-9 * max(1.0, peak[0]):
             v('wallet_differs', f'{tag}: wallet {exch.wallet_balance} model {float(mdl.wallet)}')
         for s in syms:
             p = w.pos[s]
